@@ -160,7 +160,7 @@ PROPS.update({
         "technique": "randomised concurrency testing: rapid-generated operation mixes on 2-16 goroutines, recorded histories judged by a linearizability checker (porcupine) against sequential specifications, Go race detector, and a whole-schedule charge oracle under concurrent gas-schedule flips",
         "level_text": "Schedules are sampled by the Go scheduler, not owned: hundreds (quick) to tens of thousands (thorough) of generated mixes on MutexMap, the function container and the six atomic types are run several times each and every recorded history must be linearizable; a live world runs priced executions on private accounts concurrently with schedule flips, epoch notifications and registry reads, under -race, and every charge must equal one schedule's formula as a whole. A bug needing one specific preemption can be missed; lock-discipline bugs are caught by the race detector regardless of interleaving.",
         "level_note": "Trusted: porcupine v1.3.0, the Go race detector, the sequential specifications in harness/c19_test.go; one goroutine at a time calls GasScheduleChange (the factory is not documented as concurrent-safe for writers). Linearizability checks that time out (300 ms) are counted as inconclusive, never as violations.",
-        "rule": "generated (rapid): target object, 2-16 goroutines, 1-10 operations each over 4 keys, run 3 times (quick) / 10 times (thorough); live cases on a two-shard world with 2-8 executing goroutines (30 call shapes: every priced function, transfers with attached calls to local and remote users and contracts, SetUserName / ChangeOwnerAddress / ClaimDeveloperRewards; charges and outcomes compared with two sequential baselines under schedule A and under schedule B; a third of the state-neutral operations with GasProvided between the two charges), continuous schedule flips, epoch notifications; a deadlock watchdog over every section; writer/observer runs where every insert and removal is awaited by an armed observer. Non-trivial = a mix containing >= 1 mutating operation in which operations of different goroutines overlapped in time in at least one run (measured from the recorded timestamps), or a live case; distinct by the rendered mix.",
+        "rule": "generated (rapid): target object, 2-16 goroutines, 1-10 operations each over 4 keys, run 3 times (quick) / 10 times (thorough); live cases on a two-shard world with 2-8 executing goroutines (30 call shapes: every priced function, transfers with attached calls to local and remote users and contracts, SetUserName / ChangeOwnerAddress / ClaimDeveloperRewards; charges and outcomes compared with two sequential baselines under schedule A and under schedule B; a third of the state-neutral operations with GasProvided between the two charges), continuous schedule flips, epoch notifications; a deadlock watchdog over every section; writer/observer runs where every insert and removal is awaited by an armed observer. Before the generated cases every process runs fixed conservation workloads on Counter and Flag (adders against a resetter: returned + final = net added; Increment values unique; one of G concurrent Set calls sees 'not set'; a flag that only receives Toggle(v) is never read as !v). Non-trivial = a mix containing >= 1 mutating operation in which operations of different goroutines overlapped in time in at least one run (measured from the recorded timestamps), or a live case; distinct by the rendered mix.",
         "assumptions": ["WORLD", "ENC"],
         "quick": {"procs": 4, "checks": 250, "timeout_s": 900, "gomaxprocs": 4, "env": {"VERIF_C19_ROUNDS": 3}},
         "thorough": {"procs": 8, "checks": 6000, "timeout_s": 3400, "gomaxprocs": 4, "env": {"VERIF_C19_ROUNDS": 10}},
